@@ -222,9 +222,27 @@ def _guard_inner(fn, job):
         except Exception:
             pass
         return d
-    except Exception:
-        # a crash of the harness itself must never look like a verdict
+    except Exception as e:
         a = Acc()
+        tb = traceback.extract_tb(e.__traceback__)
+        src = os.path.abspath(os.environ.get('KERNPY_SRC', '/repo')) + os.sep
+        here = os.path.dirname(os.path.dirname(os.path.abspath(__file__))) + os.sep
+        lib_frames = [f for f in tb if os.path.abspath(f.filename).startswith(src)]
+        inner = os.path.abspath(tb[-1].filename) if tb else ''
+        if lib_frames and (inner.startswith(src) or not inner.startswith(here)):
+            # the exception was raised INSIDE the library (or below it) by a call that never raises on the delivered tree: that is an observation
+            # about the library, not a crash of the harness.  It is reported as a violation whose replay re-runs this job.
+            hf = [f for f in tb if os.path.abspath(f.filename).startswith(here)]
+            a.count('evaluations')
+            a.violation(Viol('unexpected-exception', type(e).__name__ + '-raised-inside-kernpy',
+                             {'job_fn': getattr(fn, '__name__', None), 'job': jsonable(job), 'harness_frame': f'{os.path.basename(hf[-1].filename)}:{hf[-1].lineno}' if hf else None,
+                              'library_frame': f'{os.path.relpath(lib_frames[-1].filename, src)}:{lib_frames[-1].lineno} in {lib_frames[-1].name}'},
+                             'no exception (this call does not raise on the delivered library)', f'{type(e).__name__}: {str(e)[:200]}'))
+            for v in a.viol:
+                v.setdefault('job_fn', getattr(fn, '__name__', None))
+                v.setdefault('job', jsonable(job))
+            return a.dump()
+        # a crash of the harness itself must never look like a verdict
         a.count('harness_errors')
         a.caps.append('HARNESS-ERROR in worker: ' + traceback.format_exc()[-1500:] + ' job=' + repr(job)[:300])
         return a.dump()
